@@ -44,6 +44,10 @@ type Obligation struct {
 
 // Enc accumulates the SMT context for one root function.
 type Enc struct {
+	ownMaps    map[string]bool // heaps of map types written only by the root's package (class 3)
+	ownMapList []string
+	keepOwn    bool // the class-0 havoc in progress cannot write the package's own map types
+
 	w          *World
 	db         *ContractDB
 	decls      []string
@@ -337,7 +341,7 @@ func (e *Enc) knownTypes() map[int]types.Type {
 type State struct {
 	cond string         // reach condition
 	heap map[string]int // heap name -> version
-	base [2]int         // default version per class (0 = shared/public, 1 = private to root's package)
+	base [4]int         // default version per class (0 = shared/public, 1 = private to root's package, 2 = call ghosts of the root, never havocked wholesale)
 }
 
 func (s *State) clone() *State {
@@ -356,6 +360,14 @@ func heapName(name string, v int) string {
 func (e *Enc) class(name string) int {
 	if e.privPkg != "" && strings.HasPrefix(name, "H_S_"+e.privPkg+"_") {
 		return 1
+	}
+	if e.ownMaps[name] {
+		return 3 // maps of types written only by the root's package: changed by name only (see havocClass)
+	}
+	for _, p := range []string{"CALLED_", "COUNT_", "LAST_", "LASTB_", "ARGS_", "VIS_"} {
+		if strings.HasPrefix(name, p) {
+			return 2 // ghost record of the calls made by the function under verification: callees cannot change it
+		}
 	}
 	return 0
 }
@@ -483,6 +495,12 @@ func (e *Enc) havocClass(st *State, class int) {
 	}
 	e.nextVer++
 	st.base[class] = e.nextVer
+	if class == 0 && !e.keepOwn {
+		// the havocking party may write the package's own map types (in-package callee, callbacks, other threads)
+		for _, n := range e.ownMapList {
+			e.havoc(st, n)
+		}
+	}
 }
 
 type edge struct {
